@@ -39,7 +39,8 @@ OBJ_REFS = ['verif_fixtures.OBJ', 'verif_fixtures.Outer.Inner',
             # importable names whose objects cannot be copied: a module, a
             # lock, a generator, an object that refuses
             'verif_fixtures.sub', 'verif_fixtures.LOCK', 'verif_fixtures.GEN',
-            'verif_fixtures.NOCOPY', 'json', 'os.path', 'verif_fixtures.CYC']
+            'verif_fixtures.NOCOPY', 'json', 'os.path', 'verif_fixtures.CYC',
+            'verif_fixtures.level-data.VALUE']
 PLAIN_STRINGS = ['hello', ' spaced ', '', 'a$b', 'x ${verif_fixtures.OBJ} y',
                  'see $res{a}', ' ${verif_fixtures.OBJ}', '$ {x}', '$res',
                  '${}', '$RES{a}', '$handle', '$res{}', '$', '{a}', '}{',
@@ -113,11 +114,21 @@ class Interp:
                 return ('resource', self.name, self.loads, self.tree)
 
         self.ValHandle = ValHandle
-        self.root = d.ResourceMap()
+        sc_ = self.cfg.get('split_char')
+        if sc_:
+            # the tree's root is a map class with its own separator
+            class SplitMap(d.ResourceMap):
+                split_char = sc_
+            self.MapClass = SplitMap
+            self.probes['custom_split_char'] += 1
+        else:
+            self.MapClass = d.ResourceMap
+        self.root = self.MapClass()
+        self.sep = self.root.split_char
         self.res = {}
         for path in self.cfg['resources']:
             h = ValHandle(path)
-            self.root['/'.join(path.split('.'))] = h
+            self.root[self.sep.join(path.split('.'))] = h
             self.res[path] = h
         for path in self.cfg.get('preload', []):
             self.res[path]()
@@ -127,7 +138,8 @@ class Interp:
             # resources in such a run)
             self.probes['free_standing_handle'] += 1
         else:
-            self.root[self.cfg['handle_key']] = self.handle
+            self.root[self.cfg['handle_key'].replace('/', self.sep)] = \
+                self.handle
         if '/' in self.cfg['handle_key']:
             self.probes['handle_depth>=2'] += 1
         self.world = None
@@ -409,13 +421,13 @@ class Interp:
         (the first one stays what it is): from now on the enclosing tree of
         the handle - where $res{} / $handle{} are looked up - is that one."""
         d = self.desper
-        root2 = d.ResourceMap()
+        root2 = self.MapClass()
         res2 = {}
         for path in self.cfg['resources']:
             h = self.ValHandle(path, 'T2')
-            root2['/'.join(path.split('.'))] = h
+            root2[self.sep.join(path.split('.'))] = h
             res2[path] = h
-        root2[op[1]] = self.handle
+        root2[op[1].replace('/', self.sep)] = self.handle
         self.old_root = self.root       # (kept alive, still a root)
         self.root, self.res = root2, res2
         self.handle.clear()
@@ -583,6 +595,7 @@ def generate(prop, run_seed, tier='quick', tolerate=frozenset()):
         o != r and o.startswith(r + '.') for o in resources)]
     cfg = {'policy': crng.choice(['fifo', 'lifo', 'reshuffle']),
            'resources': resources, 'standalone': standalone,
+           'split_char': crng.choice([None] * 6 + [':', '|']),
            'preload': [r for r in resources if crng.random() < .4],
            'handle_key': crng.choice(['w', 'worlds/w1', 'worlds/l1/w',
                                       'deep/er/still/w', 'w2'])}
@@ -677,4 +690,5 @@ PROBES = {'C15': ['ref.object', 'ref.res', 'ref.handle', 'near_miss_string',
                   'entity_without_components', 'handle_depth>=2',
                   'reload_after_rewrite', 'dict_path', 'callbacks_checked',
                   'handle_moved_to_another_tree', 'free_standing_handle',
+                  'custom_split_char',
                   'class_decorated_after_use']}
